@@ -148,3 +148,10 @@ Example C05_corruption_inhabited :
   c_mirrors urljoin0 fos0 lext0 false probes0 base0 ex_corrupt (run_def urljoin0 fos0 lext0 fancy false probes0 base0 ex_corrupt) = true /\
   (exists o, run_def urljoin0 fos0 lext0 fancy false probes0 base0 ex_corrupt = FOk o).
 Proof. vm_compute. repeat split; try reflexivity. eexists; reflexivity. Qed.
+
+(* The generated type table still supports every one of the 26 data types the statement counts, so
+   "state variables of every supported data type" has not silently shrunk. *)
+Example C05_all_26_types_supported :
+  length uda_types = 26%nat /\
+  forallb (fun n => match find_row n type_table with Some _ => true | None => false end) uda_types = true.
+Proof. vm_compute. split; reflexivity. Qed.
